@@ -73,6 +73,9 @@ pub enum Ev {
     Fail { from: u8 },
     /// advance the (offset) clock by 11 s: pending requests older than 10 s become "slow"
     Clock,
+    /// the substream towards a peer with an outstanding request opens only now (slow dial): the event loop asks the
+    /// engine for that peer's action (`next_peer_action`) and sends it; the request is as old as it was
+    SubstreamOpened { from: u8 },
 }
 
 pub struct LookupModel {
@@ -408,6 +411,11 @@ impl Model for LookupModel {
         if self.clock && !sys.in_flight.is_empty() && sys.now < 33 {
             v.push(Ev::Clock);
         }
+        if self.clock && sys.now > 0 {
+            for from in sys.in_flight.keys() {
+                v.push(Ev::SubstreamOpened { from: *from });
+            }
+        }
         v
     }
 
@@ -511,6 +519,9 @@ impl Model for LookupModel {
             Ev::Clock => {
                 clock::advance(Duration::from_secs(11));
                 sys.now += 11;
+            }
+            Ev::SubstreamOpened { from } => {
+                let _ = sys.engine.next_peer_action(&QID, &peer_id(*from));
             }
         }
         self.drain(sys)?;
@@ -720,7 +731,9 @@ fn lookup_models(ctx: &Ctx) -> Vec<LookupModel> {
         for parallelism in [1usize, 2, 3] {
             v.push(LookupModel { kind: Kind::FindNode, n, replication, parallelism, quorum: Q::One, clock: false, max_reply: 2 });
             // the slow-peer rule needs the clock; fewer reply shapes keep it small
-            v.push(LookupModel { kind: Kind::FindNode, n: 4, replication, parallelism, quorum: Q::One, clock: true, max_reply: if thorough { 2 } else { 1 } });
+            // (two-peer replies with the clock also in the quick tier where one request at a time is allowed: a slow peer plus two
+            // fresh candidates is the smallest situation in which a recount can overshoot)
+            v.push(LookupModel { kind: Kind::FindNode, n: 4, replication, parallelism, quorum: Q::One, clock: true, max_reply: if thorough || parallelism == 1 { 2 } else { 1 } });
             for quorum in [Q::One, Q::Two, Q::All] {
                 v.push(LookupModel { kind: Kind::GetRecord, n: 4, replication, parallelism, quorum, clock: false, max_reply: if thorough { 2 } else { 1 } });
             }
